@@ -58,6 +58,7 @@ pub fn exec_wm(st: &mut State, name: &str, t: &[&str]) -> String {
                 _ => panic!("harness: bad core op"),
             };
         },
+        "ref" => return "ok".to_string(),
         "eq" => {
             let other = st.wm(t[1]).clone();
             return (*st.wm(name) == other).to_string();
@@ -75,7 +76,7 @@ pub fn exec_wm(st: &mut State, name: &str, t: &[&str]) -> String {
         "contains" => (v.contains(parse_u64(t[1])) as u8).to_string(),
         "pred" => opt_pair(v.predecessor(parse_usize(t[1]), parse_u64(t[2])).next()),
         "succ" => opt_pair(v.successor(parse_usize(t[1]), parse_u64(t[2])).next()),
-        "ser" => words_to_string(&ser_words(v)),
+        "ser" | "doc" => words_to_string(&ser_words(v)),
         "items" => { let xs: Vec<u64> = v.iter().collect(); words_to_string(&xs) },
         "into_iter" => { let xs: Vec<u64> = v.clone().into_iter().collect(); words_to_string(&xs) },
         "it" => {
